@@ -502,6 +502,39 @@ pub fn run_c01(tier: &str) -> i32 {
             }
         }
     }
+    // one file that changes while the source is processed: temp targets rewritten between includes / commands
+    {
+        const FS: [&[&str]; 6] = [
+            &["+TXTPP#temp t.out", "+one"],
+            &["+TXTPP#temp t.out", "+two", "+lines"],
+            &["-TXTPP#include t.out"],
+            &["=TXTPP#include ./t.out"],
+            &["x"],
+            &["+TXTPP#temp ./t.out"],
+        ];
+        let max = if thorough { 6 } else { 5 };
+        rep.set("file_state_alphabet", json!(FS.iter().map(|x| x.join(" / ")).collect::<Vec<_>>()));
+        sharded_dyn(&rep, par_threads(), |_k, _n, next, rep| {
+            let b = Bench::new(&help);
+            let stop = || rep.over_cap();
+            let mut steps = BTreeSet::new();
+            for_each_seq(FS.len(), max, next, &stop, &mut |seq| {
+                if seq.is_empty() {
+                    return;
+                }
+                let lines: Vec<&str> = seq.iter().flat_map(|&i| FS[i].iter().cloned()).collect();
+                let src = build_source(&lines, false, true);
+                if c01_case(rep, &b, &src, true, 9, &mut steps) {
+                    rep.add("file_state_cases", 1);
+                }
+                if let (Ok(mf), r) = (b.model(&src, true), b.run(&src, Mode::Build, true, true)) {
+                    if r.v == V::Ok && r.tmp.as_ref() != mf.temps.get(TMP) {
+                        rep.violate("temp-differs", format!("source {:?}: temp target is {:?}, semantics prescribe {:?}", show(&src), r.tmp.as_ref().map(|x| show(x)), mf.temps.get(TMP).map(|x| show(x))), replay_json("C01", &src, true, json!({})));
+                    }
+                }
+            });
+        });
+    }
     crate::eproj::run_into(&rep);
     rep.finish()
 }
